@@ -174,7 +174,8 @@ func (e *env) modelDeliver(l int) {
 		return
 	}
 	mainMode := b.parent == e.best
-	cur, last := l, -1
+	cur := l
+	var side []int
 	for cur >= 0 {
 		c := e.blocks[cur]
 		if mainMode {
@@ -185,7 +186,7 @@ func (e *env) modelDeliver(l int) {
 			e.best = cur
 		} else {
 			e.stored[c.trueID] = true
-			last = cur
+			side = append(side, cur)
 		}
 		nxt, ok := e.orph[c.trueID]
 		if !ok {
@@ -194,8 +195,14 @@ func (e *env) modelDeliver(l int) {
 		delete(e.orph, c.trueID)
 		cur = nxt
 	}
-	if !mainMode && last >= 0 && e.heightOf(last) > e.heightOf(e.best) && e.validPath(last) {
-		e.best = last
+	// The branch that became available is adopted up to its highest block that is fully valid and
+	// strictly higher than the best block: an invalid block further up (typically a waiting block
+	// that was attached behind the received one) does not take the valid part of the branch with it.
+	for i := len(side) - 1; i >= 0; i-- {
+		if e.heightOf(side[i]) > e.heightOf(e.best) && e.validPath(side[i]) {
+			e.best = side[i]
+			break
+		}
 	}
 }
 
@@ -258,9 +265,26 @@ func (w *World) Run(x *simkit.Ctx) {
 		e.nut.Disk.PermBulkStore = simdisk.CanonStateBulk(func(n int) []int { return bulkRng.Perm(n) })
 	}
 	e.reseedBulk(0)
+	// In a quarter of the runs the generator opens with a directed history: a side branch of valid
+	// blocks whose top block is invalid, delivered children first (so that the invalid block is
+	// attached as a waiting block behind the valid ones): the valid part is longer than the main
+	// chain and must be adopted.
+	var script []*simkit.Step
+	if x.CfgInt("tailopening", func(r *simkit.Rng) int { return r.Pick(3, 1) }) == 1 {
+		kind := x.CfgInt("tailkind", func(r *simkit.Rng) int { return []int{fStateRoot, fReceiptRoot, fBadTx, fHeight}[r.Intn(4)] })
+		script = []*simkit.Step{
+			{Op: "build"}, {Op: "deliver", A: 0}, {Op: "branch", A: -1},
+			{Op: "build", A: 1}, {Op: "build", A: 1}, {Op: "build", A: 1},
+			{Op: "forge", A: 3, B: 0, C: kind},
+			{Op: "deliver", A: 4}, {Op: "deliver", A: 2}, {Op: "deliver", A: 1},
+		}
+	}
 	gen := func(r *simkit.Rng) *simkit.Step {
-		if len(x.Case.Steps) >= nsteps || e.dead {
+		if len(x.Case.Steps) >= nsteps+len(script) || e.dead {
 			return nil
+		}
+		if k := len(x.Case.Steps); k < len(script) {
+			return script[k]
 		}
 		nb := len(e.builders)
 		nblk := len(e.blocks)
